@@ -14,14 +14,14 @@ from ..symx import Expander, TupleV, ListV
 from ..ncf import M
 from .. import ncf, anf
 from ..anf import R, Unsupported
-from .common import struct_ob, formula_ob, guard, last_return, U
+from .common import purity_obligations, struct_ob, formula_ob, guard, last_return, U
 from .gpm import gp_expander, refs, mob, REL
 from ..report import AnalysisError
 
 COV = "inference/gp/covariance.py"
 MEAN = "inference/gp/mean.py"
 FLOORS = {"mean-gradient-depends": 2, "mean-gradient-form": 3, "kernel-derivative-terms": 2,
-          "gradient-cov-rank": 1, "variance-derivative-form": 1, "gradient-mean-form": 2}
+          "gradient-cov-rank": 1, "variance-derivative-form": 1, "gradient-mean-form": 2, "arguments-not-mutated": 12}
 
 
 def run(prog, tier):
@@ -196,6 +196,13 @@ def run(prog, tier):
             obs.append(struct_ob("kernel-derivative-terms", qual(kc, gt) + "[layout]", False,
                                  "the first returned term must be transposed to (dimensions x points), the layout the regressor multiplies with",
                                  COV, gt.lineno))
+
+    # derivative helpers of every mean / kernel leave their arguments (query point, hyper-parameters) untouched
+    hier = []
+    for b in ("CovarianceFunction", "MeanFunction"):
+        hier += [prog.cls(b)] + prog.subclasses(b)
+    obs.extend(purity_obligations(prog, "arguments-not-mutated", hier, methods=("gradient", "gradient_terms", "__call__")))
+    obs.extend(purity_obligations(prog, "arguments-not-mutated", [prog.cls("GpRegressor")], methods=("gradient", "spatial_derivatives")))
 
     meta = {
         "explanation": "Must-depend rule (transitive def-use) for the mean function's contribution; matrix normal form of both mean "
